@@ -105,6 +105,17 @@ class _TZ:
         return True
 
 
+class _ZoneTZ:
+    """The ONE tzinfo object of the process zone (a DST-observing zone such as ZoneInfo('America/New_York')): what makes two
+    datetimes 'same tzinfo'."""
+
+    def __bool__(self):
+        return True
+
+
+ZTZ = _ZoneTZ()
+
+
 def _tz_off(tz):
     if isinstance(tz, _TZ):
         return tz.off
@@ -114,14 +125,16 @@ def _tz_off(tz):
 class MDT(dt.datetime):
     """Model datetime.  off is None: naive (wall, fold; born: the instant it was generated from, or None)."""
 
-    def __new__(cls, wall, off, fold=0, born=None):
+    def __new__(cls, wall, off, fold=0, born=None, zone=False):
         o = dt.datetime.__new__(cls, 2000, 1, 1)
-        o.wall, o.off, o._fold, o.born = wall, off, fold, born
+        o.wall, o.off, o._fold, o.born, o.zone = wall, off, fold, born, zone
         return o
 
     @property
     def tzinfo(self):
-        return None if self.off is None else _TZ(self.off)
+        if self.off is None:
+            return None
+        return ZTZ if self.zone else _TZ(self.off)
 
     @property
     def fold(self):
@@ -129,10 +142,12 @@ class MDT(dt.datetime):
 
     def instant(self):
         """The instant this value denotes (naive = local time, fold-aware), as CPython's astimezone computes it."""
-        if self.off is not None:
+        if self.off is not None and not self.zone:
             return self.wall - self.off
         if self.born is not None:
             return self.born
+        if self.zone:
+            return mktime_model(self.wall, self._fold)
         return mktime_model(self.wall, self._fold)
 
     def astimezone(self, tz=None):
@@ -147,12 +162,16 @@ class MDT(dt.datetime):
             raise NotImplementedError("MDT.replace: only tzinfo= / fold= are modelled")
         off, born = self.off, self.born
         fold = kw.get("fold", self._fold)
+        zone = self.zone
         if "tzinfo" in kw:
+            if kw["tzinfo"] is ZTZ:
+                raise NotImplementedError("MDT.replace(tzinfo=<the process zone object>) is not modelled")
             off = None if kw["tzinfo"] is None else _tz_off(kw["tzinfo"])
             born = None  # the wall clock now stands on its own
+            zone = False
         if "fold" in kw and fold != self._fold:
             born = None
-        return MDT(self.wall, off, fold, born)
+        return MDT(self.wall, off, fold, born, zone)
 
     def utcoffset(self):
         return None if self.off is None else dt.timedelta(seconds=self.off)
@@ -168,6 +187,10 @@ class MDT(dt.datetime):
                 raise TypeError("can't compare offset-naive and offset-aware datetimes")
             return None
         if self.off is None:
+            return self.wall, o.wall
+        if self.zone and o.zone:
+            # CPython: two aware datetimes with the SAME tzinfo object are compared by their naive fields -- offsets and fold are
+            # not consulted (so inside a repeated hour the order / equality is that of the wall clock)
             return self.wall, o.wall
         return self.wall - self.off, o.wall - o.off
 
@@ -238,7 +261,7 @@ def _mdt_add(self, td):
     if s_ is None:
         return NotImplemented
     # datetime arithmetic is wall-clock arithmetic: tzinfo is kept, fold is reset, the value no longer "comes from" an instant
-    return MDT(self.wall + s_, self.off, 0, None)
+    return MDT(self.wall + s_, self.off, 0, None, self.zone)
 
 
 def _mdt_sub(self, o):
@@ -248,7 +271,7 @@ def _mdt_sub(self, o):
     s_ = _secs(o)
     if s_ is None:
         return NotImplemented
-    return MDT(self.wall - s_, self.off, 0, None)
+    return MDT(self.wall - s_, self.off, 0, None, self.zone)
 
 
 MDT.__add__ = _mdt_add
@@ -262,6 +285,11 @@ def naive_local(u):
 
 def aware(u, off):
     return MDT(u + off, off)
+
+
+def zone_aware(u):
+    """timezone-aware in the process zone itself, every such value carrying the same tzinfo object"""
+    return MDT(local(u), loff(u), fold_of(u), born=u, zone=True)
 
 
 # ----------------------------------------------------------------------------- the file-store side (model of os / datetime)
@@ -447,11 +475,15 @@ def c18_stale(u0: int, o0: int, u1: int, o1: int, u2: int, o2: int, uf: int, of:
             path = f"/model/s{j}"
             MTIMES[path] = u_of[j]
             return TouchFileStore(path)
+        if kind_of[j] == "z":
+            return AwareStore(j, lambda j=j: zone_aware(u_of[j]))
         return AwareStore(j, lambda j=j: aware(u_of[j], off_of[j]))
 
     def mk_fresh():
         if fk == "-":
             return None
+        if fk == "z":
+            return zone_aware(uf)
         return naive_local(uf) if fk == "n" else aware(uf, of)
 
     install_fs_model(True)
@@ -489,6 +521,25 @@ def posix_tz(L0, L1):
     return f"<AAA>{off(L0)}<BBB>{off(L1)},J{doy}/{wall.hour}:{wall.minute:02d}:{wall.second:02d},J365/23:00:00"
 
 
+class _RealLocalTZ(dt.tzinfo):
+    """A real tzinfo for the process zone (one shared instance, like a ZoneInfo object): offset looked up through the C library
+    for the naive fields + fold of the datetime it is attached to."""
+
+    def utcoffset(self, d):
+        naive = d.replace(tzinfo=None)
+        ts = naive.timestamp()  # local time -> POSIX timestamp, fold-aware
+        return naive - dt.datetime.fromtimestamp(ts, dt.timezone.utc).replace(tzinfo=None)
+
+    def dst(self, d):
+        return dt.timedelta(0)
+
+    def tzname(self, d):
+        return "LOCAL"
+
+
+REAL_LOCAL = _RealLocalTZ()
+
+
 def real_mirror(u_of, off_of, kind_of, fk, uf, of, L0, L1, X):
     """The same scenario with real datetimes, a real TZ and real files; instants shifted so that X = ANCHOR."""
     import tempfile
@@ -506,11 +557,15 @@ def real_mirror(u_of, off_of, kind_of, fk, uf, of, L0, L1, X):
                 open(p, "w").close()
                 os.utime(p, (u_of[j] + d, u_of[j] + d))
                 return TouchFileStore(p)
+            if kind_of[j] == "z":
+                return AwareStore(j, lambda j=j: dt.datetime.fromtimestamp(u_of[j] + d).replace(tzinfo=REAL_LOCAL))
             return AwareStore(j, lambda j=j: dt.datetime.fromtimestamp(u_of[j] + d, dt.timezone(dt.timedelta(seconds=off_of[j]))))
 
         def mk_fresh():
             if fk == "-":
                 return None
+            if fk == "z":
+                return dt.datetime.fromtimestamp(uf + d).replace(tzinfo=REAL_LOCAL)
             if fk == "n":
                 return dt.datetime.fromtimestamp(uf + d)
             return dt.datetime.fromtimestamp(uf + d, dt.timezone(dt.timedelta(seconds=of)))
